@@ -99,6 +99,12 @@ def run(rep: common.Report, tier: str, seed: int, replay=None) -> int:
         dict(terminal_psi=1e-9, field=0.2, current=0.5, screening=False, solve_time=0.8, model=False),
         dict(terminal_psi=2e-10j, field=0.0, current=0.5, screening=False, solve_time=0.8, model=False),
         dict(terminal_psi=-0.6 + 0.8j, field=0.1, current=0.5, screening=False, solve_time=0.5, model=False),
+        # the same values in other number types (numpy scalars, Python ints)
+        dict(terminal_psi=np.int64(1), field=0.1, current=0.5, screening=False, solve_time=0.4, model=False),
+        dict(terminal_psi=np.float32(0.5), field=0.0, current=0.5, screening=False, solve_time=0.4, model=False),
+        dict(terminal_psi=np.int64(0), field=0.2, current=0.5, screening=False, solve_time=0.4, model=False),
+        dict(terminal_psi=1, field=0.1, current=0.5, screening=False, solve_time=0.4, model=False),
+        dict(terminal_psi=np.complex64(0.25 + 0.5j), field=0.1, current=0.5, screening=False, solve_time=0.4, model=False),
         dict(terminal_psi=0.0, field=0.3, current=1.0, screening=True, solve_time=0.15, model=False),
         dict(terminal_psi=1.0, field=0.1, current=1.0, screening=True, solve_time=0.15, model=False),
     ]
